@@ -453,8 +453,13 @@ fn validate(ctx: &Context<impl Channel>) -> Result<(), Error> {
     }
     // Circuit::validate() compares against `max_reg_count.saturating_sub(1)` and therefore lets
     // register 0 through when there are no registers at all.
+    // The evaluator only holds labels for registers that some instruction has written.
+    let mut is_written = vec![false; circ.max_reg_count];
+    for inst in &circ.insts {
+        is_written[inst.out.0 as usize] = true;
+    }
     for output_reg in &circ.output_regs {
-        if output_reg.0 as usize >= circ.max_reg_count {
+        if output_reg.0 as usize >= circ.max_reg_count || !is_written[output_reg.0 as usize] {
             return Err(CircuitError::InvalidOutput(*output_reg).into());
         }
     }
